@@ -113,6 +113,8 @@ pub struct HConfig {
     pub health_check_port: Option<u16>,
     pub persist: Option<PathBuf>,
     pub status_interval: Duration,
+    /// capacity of the StatsQueue handed to the server (the real binary uses 2 x num_workers)
+    pub queue_cap: usize,
     kms: KmsProtection,
 }
 
@@ -127,6 +129,7 @@ impl HConfig {
             persist: None,
             // the stats timer fires at status_interval/10 and clears the recorder; keep it far away
             status_interval: Duration::from_secs(60_000),
+            queue_cap: 4096,
             kms: KmsProtection::Plaintext,
         }
     }
@@ -275,7 +278,7 @@ impl Inproc {
         let (ptx, prx) = channel::<Result<String, String>>();
         let n = SERVER_CTR.fetch_add(1, std::sync::atomic::Ordering::Relaxed);
         let tname = name.unwrap_or_else(|| format!("worker-h{}", n));
-        let queue = Arc::new(StatsQueue::new(4096));
+        let queue = Arc::new(StatsQueue::new(cfg.queue_cap.max(1)));
         let q_for_server = queue.clone();
         let handle = std::thread::Builder::new()
             .name(tname)
